@@ -1818,7 +1818,7 @@ func TestCheck(t *testing.T) {
 		part = "all"
 	}
 	if part == "all" || part == "hist" {
-		nseq := ev.Pick(6000, 100000)
+		nseq := ev.Pick(6000, 400000)
 		nops := 25
 		parallel(nseq, func(i int) {
 			id := fmt.Sprint("seq", i)
@@ -1884,7 +1884,7 @@ func TestCheck(t *testing.T) {
 		})
 	}
 	if part == "all" || part == "proof" {
-		ncase := ev.Pick(2000, 30000)
+		ncase := ev.Pick(2000, 120000)
 		attempts := 120
 		parallel(ncase, func(i int) {
 			id := fmt.Sprint("proof", i)
